@@ -4,6 +4,8 @@ package main
 // trk.hist <pool> <script>; reply format documented in Exec/StateExec.v.
 
 import (
+	"fmt"
+
 	"github.com/Comcast/gots/v2/scte35"
 )
 
@@ -57,7 +59,7 @@ func init() {
 			return v, false
 		}
 		var out []Val
-		for _, c := range script {
+		for step, c := range script {
 			kind := c.L[0].Int()
 			var closed []scte35.SegmentationDescriptor
 			var err error
@@ -83,6 +85,14 @@ func init() {
 			code := 0
 			if err != nil {
 				code = errCode(err)
+			}
+			// the caller keeps the closed list and a list obtained from Open() while the tracker goes on (stable.go)
+			keepList(fmt.Sprintf("closed list of call %d", step), closed)
+			if !panicked {
+				func() {
+					defer func() { recover() }()
+					keepList(fmt.Sprintf("Open() after call %d", step), st.Open())
+				}()
 			}
 			ov, op := openObs()
 			out = append(out, VL(ids(closed), VI(int64(code)), ov, VI(poolChanged())))
